@@ -74,6 +74,18 @@ func init() {
 		fs = append(fs, cfs...)
 		inc = append(inc, cinc...)
 		ev["rt_commitsync"] = cev
+		// sim half: with the main-loop -> worker hand-off split in two steps, a COMMIT quorum that completes after the main loop has
+		// accepted a sync above the height must not reach the commit callback (the registry refuses the superseded height's context)
+		{
+			p := advProfile(map[string]int{"barePP": 0, "support": 30, "vcGames": 10, "mutate": 10}, 500, 3)(run.Thorough())
+			p.SplitHandoff, p.SyncPct, p.ReverseToLaggers = true, 8, true
+			sfs2, sev2 := sim.RunWorkloadFor(run, "C15", "c15", p, run.Pick(2500, 50000), []string{"C15 commit-callback contexts judged at entry", "commits", "delivered inside a hand-off window"})
+			fs = append(fs, sfs2...)
+			ev["sim_split_handoff"] = sev2
+			if j := sev2["sim_events_judged"].(map[string]int); j["C15 commit-callback contexts judged at entry"] < 2000 || j["delivered inside a hand-off window"] < 2000 {
+				inc = append(inc, "floor missed: sim half judged too few commit callbacks / hand-off windows")
+			}
+		}
 		// SPI calls parked on their context while syncs of every kind arrive; the committee contract reports cancellation
 		// with the context's error or with one of its own
 		sfs, sev, sinc := rtPart(run, "sync", 64, 3000, map[string]int{"C14 releases judged": 100})
